@@ -31,6 +31,7 @@ pub fn observe(p: &Placement, hash_seed: u64, slot: usize) -> (Vec<u8>, Option<S
         return (vec![], None, Some("cannot write gitconfig".into()));
     }
     let probe = p.probe.clone();
+    let wide = wide_by_name(&p.probe).is_some();
     let args = e.args.clone();
     let envv = e.env.clone();
     let r = on_fresh_thread(hash_seed, move || {
@@ -49,7 +50,17 @@ pub fn observe(p: &Placement, hash_seed: u64, slot: usize) -> (Vec<u8>, Option<S
             }
             let assets = dh::load_highlighting_assets();
             let (_call, opt) = dh::Opt::from_args_and_git_config(a, &env, assets);
-            let config = dh::Config::from(opt.expect("Opt"));
+            let opt = opt.expect("Opt");
+            if wide {
+                // the resolved options themselves, as "long-name = value" lines in the layout of --show-config
+                let fields = dump_opt(&opt);
+                let mut out = String::new();
+                for w in WIDE {
+                    out.push_str(&format!("    {} = {}\n", w.probe.name, fields[w.field]));
+                }
+                return out.into_bytes();
+            }
+            let config = dh::Config::from(opt);
             let mut out: Vec<u8> = Vec::new();
             dh::show_config(&config, &mut out).expect("show_config");
             out
@@ -66,8 +77,26 @@ pub fn observe(p: &Placement, hash_seed: u64, slot: usize) -> (Vec<u8>, Option<S
     }
 }
 
+macro_rules! dump_fields {
+    ($opt:expr; str: [$($s:ident),*]; opt: [$($o:ident),*]; disp: [$($d:ident),*]) => {{
+        let mut m: BTreeMap<&'static str, String> = BTreeMap::new();
+        $(m.insert(stringify!($s), $opt.$s.clone());)*
+        $(m.insert(stringify!($o), $opt.$o.clone().unwrap_or_else(|| "<none>".to_string()));)*
+        $(m.insert(stringify!($d), $opt.$d.to_string());)*
+        m
+    }};
+}
+
+/// The fields of `cli::Opt` behind the options of the wide table (simcore::c13m::WIDE).
+fn dump_opt(opt: &dh::Opt) -> BTreeMap<&'static str, String> {
+    dump_fields!(opt;
+        str: [blame_format, blame_separator_format, blame_timestamp_format, commit_decoration_style, commit_regex, commit_style, default_language, diff_args, file_copied_label, file_decoration_style, file_removed_label, file_style, grep_file_style, grep_line_number_style, grep_separator_symbol, hunk_header_decoration_style, hunk_header_file_style, hunk_header_line_number_style, hunk_header_style, hunk_label, hyperlinks_file_link_format, inline_hint_style, line_numbers_left_style, line_numbers_minus_style, line_numbers_plus_style, line_numbers_right_format, line_numbers_right_style, line_numbers_zero_style, merge_conflict_begin_symbol, merge_conflict_end_symbol, merge_conflict_ours_diff_header_decoration_style, merge_conflict_ours_diff_header_style, merge_conflict_theirs_diff_header_decoration_style, merge_conflict_theirs_diff_header_style, minus_empty_line_marker_style, minus_emph_style, minus_non_emph_style, minus_style, paging_mode, plus_emph_style, plus_empty_line_marker_style, plus_non_emph_style, plus_style, true_color, whitespace_error_style, tokenization_regex, wrap_left_symbol, wrap_max_lines, wrap_right_percent, wrap_right_prefix_symbol, wrap_right_symbol, zero_style];
+        opt: [blame_code_style, blame_palette, blame_separator_style, blame_timestamp_output_format, file_regex_replacement, grep_context_line_style, grep_header_decoration_style, grep_header_file_style, grep_output_type, grep_match_line_style, grep_match_word_style, hyperlinks_commit_link_format, line_fill_method, map_styles, navigate_regex];
+        disp: [line_buffer_size, max_syntax_length, max_line_length, parse_ansi, relative_paths])
+}
+
 pub fn check_placement(p: &Placement, defaults: &BTreeMap<String, String>, table: &BuiltinTable, hash_seeds: &[u64], slot: usize) -> Vec<Violation> {
-    let probe = PROBES.iter().find(|x| x.name == p.probe).unwrap();
+    let probe = probe_by_name(&p.probe);
     let mut out = Vec::new();
     let mut first: Option<(Vec<u8>, Option<String>)> = None;
     for (i, hs) in hash_seeds.iter().enumerate() {
@@ -122,6 +151,14 @@ fn calibrate() -> (BTreeMap<String, String>, BuiltinTable) {
             }
         }
     }
+    for w in WIDE {
+        let mut p = Placement::default();
+        p.probe = w.probe.name.to_string();
+        p.no_gitconfig = true;
+        if let (_, Some(v), None) = observe(&p, 1, 999_999) {
+            defaults.insert(w.probe.name.to_string(), v);
+        }
+    }
     (defaults, table)
 }
 
@@ -162,7 +199,7 @@ fn triples(seed: u64, stride: usize) -> Vec<Placement> {
 pub fn main_c13(tier: &str, seed: u64, replay: Option<&str>) -> i32 {
     let t0 = Instant::now();
     let (defaults, table) = calibrate();
-    if defaults.len() != PROBES.len() {
+    if defaults.len() != PROBES.len() + WIDE.len() {
         eprintln!("HARNESS-ERROR: could not read defaults for all probe options in process: {:?}", defaults);
         return 2;
     }
@@ -194,6 +231,9 @@ pub fn main_c13(tier: &str, seed: u64, replay: Option<&str>) -> i32 {
     // quick: every third triple; thorough: all of them
     placements.extend(triples(seed, if thorough { 1 } else { 5 }));
     let n_triples = placements.len() - n_lattice;
+    let wide = lattice_wide(seed);
+    let n_wide = wide.len();
+    placements.extend(wide);
     let n_random = if thorough { 300_000 } else { 3_000 };
     for i in 0..n_random {
         placements.push(gen_placement(seed ^ 0xE2, i));
@@ -278,10 +318,12 @@ pub fn main_c13(tier: &str, seed: u64, replay: Option<&str>) -> i32 {
     let mut ev = Evidence::new("C13", tier, seed, "exploration");
     ev.evaluations = (placements.len() * n_hash) as u64;
     ev.distinct_nontrivial = placements.len() as u64;
-    ev.rule = "E2 part: one evaluation = one in-process option resolution (Opt::from_args_and_git_config with a constructed DeltaEnv and a --config file, Config::from, show_config into a buffer) on a fresh thread whose hash keys derive from the run's seed; placements = the pair lattice (both construction orders), every unordered triple of the 27 source kinds for each of 11 probes (quick: every fifth), and seeded deeper placements; same reference model as the E1 part. distinct_nontrivial = placements.".into();
+    ev.rule = "E2 part: one evaluation = one in-process option resolution (Opt::from_args_and_git_config with a constructed DeltaEnv and a --config file, Config::from, show_config into a buffer) on a fresh thread whose hash keys derive from the run's seed; placements = the pair lattice (both construction orders), every unordered triple of the 27 source kinds for each of 11 probes (quick: every fifth), seeded deeper placements, and a wide-but-shallow part: every single custom source kind and every unordered pair of the 10 custom kinds for each of the 72 other options that the set_options! list makes settable in gitconfig, observed as the field of the resolved `Opt`; same reference model as the E1 part. distinct_nontrivial = placements.".into();
     ev.counters.insert("placements".into(), placements.len() as u64);
     ev.counters.insert("lattice_pairs_and_singles".into(), n_lattice as u64);
     ev.counters.insert("triple_placements".into(), n_triples as u64);
+    ev.counters.insert("wide_placements_all_other_gitconfig_options".into(), n_wide as u64);
+    ev.counters.insert("wide_options".into(), WIDE.len() as u64);
     ev.counters.insert("distinct_source_kind_triples_covered".into(), kind_triples.len() as u64);
     ev.counters.insert("hash_seeds_per_placement".into(), n_hash as u64);
     ev.violations = reported.len() as u64;
